@@ -1,10 +1,13 @@
 (* C10 — All storage backends behave as the same faithful key-value store.
    Property theorems only: each closed by [exact] of a lemma proved under Storage/. *)
-From Coq Require Import List String Bool Arith NArith Permutation.
+From Coq Require Import List String Ascii Bool Arith NArith Permutation.
 From Helm Require Import Common.Assoc Common.Strs Storage.Spec Storage.Mem Storage.Kube
   Storage.Proofs Storage.Refine Storage.MemProofs Storage.KubeProofs Storage.Corollaries
   Storage.Examples Storage.Tables Storage.Rmw Storage.MemNs Storage.MemNsProofs Storage.KubeX Storage.KubeXProofs Storage.KubeLabels
-  Gen.SystemLabels.
+  Storage.Calls Storage.LabelsAll Storage.AllProofs Storage.AllExamples Storage.Base64 Storage.Base64Proofs
+  Storage.Codec Storage.CodecProofs Storage.CodecTables Storage.AllBytes Storage.Order Storage.OrderEngine
+  Gen.SystemLabels Gen.CodecConsts.
+From Helm Require Engine.Types Engine.Ops.
 Import ListNotations.
 Local Open Scope string_scope.
 
@@ -305,3 +308,270 @@ Example C10_kube_system_labels_win_ex :
   aget "status" (rlabels ex_stale) = Some "deployed".
 Proof. exact ex_stale_selected. Qed.
 Print Assumptions C10_kube_system_labels_win_ex.
+
+(* ====================================================================== *)
+(* Round 4: every release content, the byte-level codec, result order      *)
+(* ====================================================================== *)
+
+(* ---------- all backends, every call sequence, every release content ---------- *)
+(* Vocabulary (Storage/Calls.v): a call [sop] is a driver call or a read-modify-write (Query
+   {name, version}, change the status of the single release that came back - with the labels it
+   came back with -, Update); [srun step s xs] runs a call sequence; [norm_rel r] is r with its
+   label map replaced by its user labels [ulabels]: the six system keys removed, one entry per
+   key (the last value written wins).  The reference map stores [norm_rel r]; results are
+   compared after the same projection.  No condition on release contents: label maps may
+   repeat keys and may carry name/owner/status/version/createdAt/modifiedAt.  The conditions
+   are on calls only: queries (and the query inside a read-modify-write) select on
+   name/owner/status/version with values that are valid Kubernetes label values - every valid
+   release name is one - for the Secret/ConfigMap model; one namespace per driver instance for
+   the memory model (C10_mem_refines_nspec is the statement without it).  The codec hypothesis
+   asks the record body to give back the release without its label map (Release.Labels is
+   json:"-"). *)
+Theorem C10_all_backends_refine_spec :
+  forall (B : Type) (enc : rel -> B) (dec : B -> option rel) (valid_label_value : string -> bool),
+  (forall r, option_map unlabel (dec (enc r)) = Some (unlabel r)) ->
+  forall (ns0 ns1 : string) (xs : list sop),
+  let ref := srun spec_step [] (map norm_sop xs) in
+  (Forall (call_in_ns ns0) xs ->
+     Forall2 out_equiv (map norm_out (srun mem_step (mkMem ns1 []) xs)) ref) /\
+  (Forall (call_ok valid_label_value) xs ->
+     Forall2 out_refines (map norm_out (srun (kube_step B enc dec valid_label_value) [] xs)) ref).
+Proof. exact all_backends_refine_spec. Qed.
+Print Assumptions C10_all_backends_refine_spec.
+
+Example C10_all_backends_refine_spec_ex :
+  Forall (call_in_ns "team-a") exa_ops /\ Forall (call_ok ex_valid) exa_ops /\
+  (forall r : rel, option_map unlabel (Some r) = Some (unlabel r)) /\
+  srun spec_step [] (map norm_sop exa_ops) = exa_ref /\
+  map norm_out (srun mem_step mem_init exa_ops) = exa_ref /\
+  map norm_out (exa_krun [] exa_ops) = exa_kube_ref /\
+  map norm_sop exa_ops <> exa_ops.
+Proof. exact exa_all. Qed.
+Print Assumptions C10_all_backends_refine_spec_ex.
+
+(* the projection is needed: unprojected, the memory driver hands back the label map it was
+   given (system keys included), Get on the Kubernetes drivers drops the system keys, List and
+   Query on them hand back the stored object's labels - where the release's own createdAt has
+   replaced the driver's stamp and the computed name/owner/status/version its stale ones *)
+Example C10_backends_differ_unprojected :
+  nth 2 (srun mem_step mem_init exa_ops) ROk = RRel exa_r1 /\
+  nth 2 (exa_krun [] exa_ops) ROk = RRel exa_n1 /\
+  nth 4 (exa_krun [] exa_ops) ROk =
+    RRels [mkRel "a.v1" "team-a" 1 "deployed"
+             [("team", "y"); ("name", "a.v1"); ("status", "deployed"); ("owner", "helm");
+              ("createdAt", "77"); ("version", "1")] 7].
+Proof. exact exa_unprojected_differ. Qed.
+Print Assumptions C10_backends_differ_unprojected.
+
+(* the memory driver needs no projection: it hands back exactly what the reference map holds *)
+Theorem C10_mem_refines_spec_rmw : forall (ns0 ns1 : string) (xs : list sop),
+  Forall (call_in_ns ns0) xs ->
+  Forall2 out_equiv (srun mem_step (mkMem ns1 []) xs) (srun spec_step [] xs).
+Proof. exact mem_refines_spec_rmw. Qed.
+Print Assumptions C10_mem_refines_spec_rmw.
+
+(* whenever Get / Delete on the Secret/ConfigMap model hand back a release, it IS the reference
+   map's entry (no projection): filterSystemLabels computes the user labels *)
+Theorem C10_kube_get_exact_all :
+  forall (B : Type) (enc : rel -> B) (dec : B -> option rel) (valid_label_value : string -> bool),
+  (forall r, option_map unlabel (dec (enc r)) = Some (unlabel r)) ->
+  forall xs : list sop,
+  Forall (call_ok valid_label_value) xs ->
+  Forall2 (fun ok os => forall r, ok = RRel r -> os = RRel r)
+          (srun (kube_step B enc dec valid_label_value) [] xs) (srun spec_step [] (map norm_sop xs)).
+Proof. exact kube_get_exact_all. Qed.
+Print Assumptions C10_kube_get_exact_all.
+
+(* what newSecretsObject / newConfigMapsObject + filterSystemLabels do with ANY label map *)
+Theorem C10_user_labels : forall (stamp : string) (r : rel),
+  is_stamp stamp ->
+  filter_system_labels (object_labels stamp r) = ulabels (rlabels r) /\
+  ulabels (object_labels stamp r) = ulabels (rlabels r) /\
+  labels_ok (ulabels (rlabels r)) /\
+  (labels_ok (rlabels r) -> ulabels (rlabels r) = rlabels r).
+Proof. exact user_labels_all. Qed.
+Print Assumptions C10_user_labels.
+
+(* ---------- the base64 layer of the record codec (encoding/base64 StdEncoding) ---------- *)
+Theorem C10_base64_roundtrip : forall bs : string, b64_decode (b64_encode bs) = Some bs.
+Proof. exact b64_roundtrip. Qed.
+Print Assumptions C10_base64_roundtrip.
+
+Theorem C10_base64_injective : forall s1 s2 : string, b64_encode s1 = b64_encode s2 -> s1 = s2.
+Proof. exact b64_encode_injective. Qed.
+Print Assumptions C10_base64_injective.
+
+(* encoded text consists of alphabet characters and '=' only *)
+Theorem C10_base64_text : forall bs : string, all_chars b64_text_char (b64_encode bs) = true.
+Proof. exact b64_encode_text. Qed.
+Print Assumptions C10_base64_text.
+
+(* the decoder skips '\n' and '\r' wherever they stand and rejects the whole text on any other
+   character that is neither a digit nor '=' *)
+Theorem C10_base64_newlines_and_rejects : forall (st : quantum) (ch : Ascii.ascii) (t : string),
+  (is_nl ch = true -> b64_decode_from st (String ch t) = b64_decode_from st t) /\
+  (b64_digit ch = None -> is_nl ch = false -> Ascii.eqb ch pad_char = false ->
+     b64_decode_from st (String ch t) = None).
+Proof. exact b64_newlines_and_rejects. Qed.
+Print Assumptions C10_base64_newlines_and_rejects.
+
+Example C10_base64_ex :
+  b64_encode "AB" = "QUI=" /\ b64_decode "QUI=" = Some "AB" /\ b64_decode "QQ=" = None /\
+  b64_decode "QR==" = Some "A" /\ b64_decode "QQ==QQ==" = None /\ b64_decode "QU-D" = None.
+Proof. exact b64_examples. Qed.
+Print Assumptions C10_base64_ex.
+
+(* ---------- decodeRelease: dispatch on the gzip magic number ---------- *)
+Theorem C10_codec_dispatch :
+  forall (unjson : string -> option rel) (gunzip : string -> option string) (data b : string),
+  b64_decode data = Some b ->
+  decode_release unjson gunzip data =
+  (if has_gzip_magic b then match gunzip b with Some b2 => unjson b2 | None => None end else unjson b).
+Proof. exact decode_dispatch. Qed.
+Print Assumptions C10_codec_dispatch.
+
+(* the test is: more than three bytes, the first three 1f 8b 08; a JSON text (it opens with a
+   brace) never passes it, so a record of the time before compression is never gunzipped *)
+Theorem C10_gzip_magic_test : forall b : string,
+  (has_gzip_magic b = true <->
+   exists c t, b = String "031"%char (String "139"%char (String "008"%char (String c t)))) /\
+  (forall t, has_gzip_magic (String "{"%char t) = false).
+Proof. exact gzip_magic_test. Qed.
+Print Assumptions C10_gzip_magic_test.
+
+(* only the round trips of encoding/json and compress/gzip are assumed *)
+Theorem C10_codec_roundtrip :
+  forall (json : rel -> string) (unjson : string -> option rel)
+         (gzip : string -> string) (gunzip : string -> option string),
+  (forall b, gunzip (gzip b) = Some b) -> (forall b, has_gzip_magic (gzip b) = true) ->
+  (forall r, option_map unlabel (unjson (json r)) = Some (unlabel r)) ->
+  forall r, option_map unlabel (decode_release unjson gunzip (encode_release json gzip r)) = Some (unlabel r).
+Proof. exact codec_roundtrip_body. Qed.
+Print Assumptions C10_codec_roundtrip.
+
+Theorem C10_codec_legacy :
+  forall (json : rel -> string) (unjson : string -> option rel) (gunzip : string -> option string),
+  (forall r, option_map unlabel (unjson (json r)) = Some (unlabel r)) ->
+  (forall r, exists t, json r = String "{"%char t) ->
+  forall r, option_map unlabel (decode_release unjson gunzip (encode_release_legacy json r)) = Some (unlabel r).
+Proof. exact codec_legacy_body. Qed.
+Print Assumptions C10_codec_legacy.
+
+Theorem C10_codec_injective :
+  forall (json : rel -> string) (unjson : string -> option rel)
+         (gzip : string -> string) (gunzip : string -> option string),
+  (forall b, gunzip (gzip b) = Some b) -> (forall b, has_gzip_magic (gzip b) = true) ->
+  (forall r, option_map unlabel (unjson (json r)) = Some (unlabel r)) ->
+  forall r1 r2, encode_release json gzip r1 = encode_release json gzip r2 -> unlabel r1 = unlabel r2.
+Proof. exact encode_release_injective. Qed.
+Print Assumptions C10_codec_injective.
+
+(* the hypotheses on gzip can be met *)
+Example C10_codec_hypotheses_ex :
+  (forall b, toy_gunzip (toy_gzip b) = Some b) /\ (forall b, has_gzip_magic (toy_gzip b) = true).
+Proof. exact toy_gzip_ok. Qed.
+Print Assumptions C10_codec_hypotheses_ex.
+
+(* regenerated from pkg/storage/driver/util.go on every run *)
+Theorem C10_codec_consts_table :
+  magic_gzip = magic_gzip_bytes /\ b64_encoding = "base64.StdEncoding" /\
+  magic_len_test = (">", 3) /\ magic_slice = (0, 3).
+Proof. exact codec_consts_table. Qed.
+Print Assumptions C10_codec_consts_table.
+
+(* ---------- the refinement statements on the byte-level codec ---------- *)
+Theorem C10_all_backends_refine_spec_bytes :
+  forall (json : rel -> string) (unjson : string -> option rel)
+         (gzip : string -> string) (gunzip : string -> option string)
+         (valid_label_value : string -> bool),
+  (forall b, gunzip (gzip b) = Some b) -> (forall b, has_gzip_magic (gzip b) = true) ->
+  (forall r, option_map unlabel (unjson (json r)) = Some (unlabel r)) ->
+  forall (ns0 ns1 : string) (xs : list sop),
+  let ref := srun spec_step [] (map norm_sop xs) in
+  (Forall (call_in_ns ns0) xs ->
+     Forall2 out_equiv (map norm_out (srun mem_step (mkMem ns1 []) xs)) ref) /\
+  (Forall (call_ok valid_label_value) xs ->
+     Forall2 out_refines
+       (map norm_out (srun (kube_step string (encode_release json gzip) (decode_release unjson gunzip)
+                                      valid_label_value) [] xs)) ref).
+Proof. exact all_backends_refine_spec_bytes. Qed.
+Print Assumptions C10_all_backends_refine_spec_bytes.
+
+Theorem C10_kube_refines_spec_bytes :
+  forall (json : rel -> string) (unjson : string -> option rel)
+         (gzip : string -> string) (gunzip : string -> option string)
+         (valid_label_value : string -> bool),
+  (forall b, gunzip (gzip b) = Some b) -> (forall b, has_gzip_magic (gzip b) = true) ->
+  (forall r, unjson (json r) = Some r) ->
+  forall ops : list op,
+  Forall (kube_op_ok valid_label_value) ops ->
+  Forall2 out_refines
+    (map strip_out (kube_run string (encode_release json gzip) (decode_release unjson gunzip)
+                             valid_label_value [] ops)) (spec_run [] ops).
+Proof. exact kube_refines_spec_bytes. Qed.
+Print Assumptions C10_kube_refines_spec_bytes.
+
+(* the damaged record the harness (and C20) plants is rejected by the base64 layer: the
+   hypothesis [dec bad = None] of C10_list_skips_undecodable is a fact *)
+Theorem C10_damaged_record_undecodable :
+  forall (unjson : string -> option rel) (gunzip : string -> option string),
+  decode_release unjson gunzip "!! not a release !!" = None.
+Proof. exact damaged_record_undecodable. Qed.
+Print Assumptions C10_damaged_record_undecodable.
+
+(* ---------- the order of List / Query results ---------- *)
+(* sorting by a numeric key and taking the maximum do not depend on the order of the input
+   when the keys are pairwise different (sort.Sort is not stable, so only then) *)
+Theorem C10_sort_order_independent : forall (A : Type) (key : A -> nat) (l1 l2 : list A),
+  Permutation l1 l2 -> NoDup (map key l1) ->
+  ksort A key l1 = ksort A key l2 /\ kmax A key l1 = kmax A key l2.
+Proof. exact sort_order_independent. Qed.
+Print Assumptions C10_sort_order_independent.
+
+(* storage.go on top of a driver (Storage/Order.v): Last = [storage_last] = History
+   (Query{name, owner}), Reverse(SortByRevision), h[0]; Deployed = [storage_deployed] = the same
+   of Query{name, owner, status=deployed}; [sorted_of] = SortByRevision of the History
+   (removeLeastRecent, uninstall).  After any call sequence, on the memory model and on the
+   Secret/ConfigMap model, they are those of the reference map - whatever order the driver
+   lists in: the revisions a query with a name returns are pairwise different because the store
+   is keyed by (name, revision) *)
+Theorem C10_reads_order_independent :
+  forall (B : Type) (enc : rel -> B) (dec : B -> option rel) (valid_label_value : string -> bool),
+  (forall r, option_map unlabel (dec (enc r)) = Some (unlabel r)) ->
+  forall (ns0 ns1 : string) (xs : list sop) (n : string),
+  let sref := sexec spec_step [] (map norm_sop xs) in
+  (Forall (call_in_ns ns0) xs ->
+     let m := sexec mem_step (mkMem ns1 []) xs in
+     norm_out (storage_last mem_step m n) = storage_last spec_step sref n /\
+     norm_out (storage_deployed mem_step m n) = storage_deployed spec_step sref n /\
+     norm_out (sorted_of (snd (mem_step m (OQuery (history_query n))))) =
+       sorted_of (snd (spec_step sref (OQuery (history_query n))))) /\
+  (Forall (call_ok valid_label_value) xs ->
+   valid_label_value n = true -> valid_label_value "helm" = true -> valid_label_value "deployed" = true ->
+     let k := sexec (kube_step B enc dec valid_label_value) [] xs in
+     out_refines (norm_out (storage_last (kube_step B enc dec valid_label_value) k n)) (storage_last spec_step sref n) /\
+     out_refines (norm_out (storage_deployed (kube_step B enc dec valid_label_value) k n)) (storage_deployed spec_step sref n) /\
+     out_refines (norm_out (sorted_of (snd (kube_step B enc dec valid_label_value k (OQuery (history_query n))))))
+                 (sorted_of (snd (spec_step sref (OQuery (history_query n)))))).
+Proof. exact reads_order_independent. Qed.
+Print Assumptions C10_reads_order_independent.
+
+Example C10_reads_order_independent_ex :
+  let a := mkRel "app" "default" 1 "superseded" [] 1 in
+  let b := mkRel "app" "default" 2 "superseded" [] 2 in
+  let c := mkRel "app" "default" 3 "deployed" [] 3 in
+  last_of (RRels [b; c; a]) = RRel c /\ deployed_of (RRels [c; a; b]) = RRel c /\
+  sorted_of (RRels [b; c; a]) = RRels [a; b; c] /\ [b; c; a] <> [c; a; b].
+Proof. exact order_ex. Qed.
+Print Assumptions C10_reads_order_independent_ex.
+
+(* the release-engine model of C01 consumes SHistory / SDeployedAll only through these *)
+Theorem C10_engine_reads_order_independent : forall l1 l2 : list Engine.Types.release,
+  Permutation l1 l2 -> NoDup (map Engine.Types.rev l1) ->
+  Engine.Ops.sort_by_rev l1 = Engine.Ops.sort_by_rev l2 /\
+  Engine.Types.max_rev_of l1 = Engine.Types.max_rev_of l2 /\
+  forall dep total maxkeep picked,
+    Engine.Ops.prune_pick (Engine.Ops.sort_by_rev l1) dep total maxkeep picked =
+    Engine.Ops.prune_pick (Engine.Ops.sort_by_rev l2) dep total maxkeep picked.
+Proof. exact engine_reads_order_independent. Qed.
+Print Assumptions C10_engine_reads_order_independent.
